@@ -16,6 +16,8 @@ import Mathlib.Tactic
 namespace PgVerif.Props.C18
 open PgVerif.Model.Kernel
 
+set_option linter.unusedSectionVars false
+
 variable {α : Type} [Field α] [LinearOrder α] [IsStrictOrderedRing α]
 
 /-! ### helper facts -/
@@ -79,5 +81,527 @@ theorem kernelLoading_length (m : ℕ) (K : List (List α)) (x : List α)
       ih (fun r hr => hrows r (List.mem_cons_of_mem _ hr))]
     simp
 
+
+/-- entry `j` of the fitted isotherm is `Σ_w K[w][j] * x[w]` -/
+theorem kernelLoading_getElem (m : ℕ) (K : List (List α)) (x : List α)
+    (hK : K ≠ []) (hlen : K.length = x.length) (hrows : ∀ row ∈ K, row.length = m)
+    (j : ℕ) (hj : j < m) :
+    (kernelLoading K x)[j]? = some ((List.zipWith (fun (row : List α) xv => row.getD j 0 * xv) K x).sum) := by
+  revert hrows
+  refine shaped_induction
+    (P := fun K x => (∀ row ∈ K, row.length = m) →
+      (kernelLoading K x)[j]? = some ((List.zipWith (fun (row : List α) xv => row.getD j 0 * xv) K x).sum))
+    ?_ ?_ K x hK hlen
+  · intro row a hrows
+    have hr : j < row.length := by rw [hrows row (by simp)]; exact hj
+    simp [kernelLoading_singleton, List.getD_eq_getElem?_getD, List.getElem?_eq_getElem hr]
+  · intro row r2 rows a xs _ ih hrows
+    have hr : j < row.length := by rw [hrows row (by simp)]; exact hj
+    rw [kernelLoading_cons, List.getElem?_zipWith, ih (fun r hr => hrows r (List.mem_cons_of_mem _ hr))]
+    simp [List.getD_eq_getElem?_getD, List.getElem?_eq_getElem hr]
+
+lemma sum_zipWith_add (f : List α → α) : ∀ (K : List (List α)) (x y : List α), x.length = y.length →
+    (List.zipWith (fun row xv => f row * xv) K (List.zipWith (· + ·) x y)).sum
+      = (List.zipWith (fun row xv => f row * xv) K x).sum + (List.zipWith (fun row xv => f row * xv) K y).sum := by
+  intro K
+  induction K with
+  | nil => intro x y _; simp
+  | cons row rows ih =>
+    intro x y h
+    cases x with
+    | nil => cases y with
+      | nil => simp
+      | cons b ys => simp at h
+    | cons a xs => cases y with
+      | nil => simp at h
+      | cons b ys =>
+        have h' : xs.length = ys.length := by simpa using h
+        simp only [List.zipWith_cons_cons, List.sum_cons, ih xs ys h']
+        ring
+
+lemma sum_zipWith_smul (f : List α → α) (k : α) : ∀ (K : List (List α)) (x : List α),
+    (List.zipWith (fun row xv => f row * xv) K (x.map (k * ·))).sum
+      = k * (List.zipWith (fun row xv => f row * xv) K x).sum := by
+  intro K
+  induction K with
+  | nil => intro x; simp
+  | cons row rows ih =>
+    intro x
+    cases x with
+    | nil => simp
+    | cons a xs =>
+      simp only [List.map_cons, List.zipWith_cons_cons, List.sum_cons, ih xs]
+      ring
+
+/-- the fitted isotherm is additive in the contributions -/
+theorem kernelLoading_add (m : ℕ) (K : List (List α)) (x y : List α)
+    (hK : K ≠ []) (hx : K.length = x.length) (hy : K.length = y.length) (hrows : ∀ row ∈ K, row.length = m) :
+    kernelLoading K (List.zipWith (· + ·) x y)
+      = List.zipWith (· + ·) (kernelLoading K x) (kernelLoading K y) := by
+  have hxy : K.length = (List.zipWith (· + ·) x y).length := by simp [← hx, ← hy]
+  apply ext_of_length (m := m) (kernelLoading_length m K _ hK hxy hrows)
+  · simp [kernelLoading_length m K _ hK hx hrows, kernelLoading_length m K _ hK hy hrows]
+  · intro j hj
+    rw [kernelLoading_getElem m K _ hK hxy hrows j hj, List.getElem?_zipWith,
+      kernelLoading_getElem m K _ hK hx hrows j hj, kernelLoading_getElem m K _ hK hy hrows j hj,
+      sum_zipWith_add _ K x y (by rw [← hx, ← hy])]
+
+/-- the fitted isotherm is homogeneous in the contributions -/
+theorem kernelLoading_smul (m : ℕ) (K : List (List α)) (x : List α) (k : α)
+    (hK : K ≠ []) (hx : K.length = x.length) (hrows : ∀ row ∈ K, row.length = m) :
+    kernelLoading K (x.map (k * ·)) = (kernelLoading K x).map (k * ·) := by
+  have hkx : K.length = (x.map (k * ·)).length := by simp [← hx]
+  apply ext_of_length (m := m) (kernelLoading_length m K _ hK hkx hrows)
+  · simp [kernelLoading_length m K _ hK hx hrows]
+  · intro j hj
+    rw [kernelLoading_getElem m K _ hK hkx hrows j hj, List.getElem?_map,
+      kernelLoading_getElem m K _ hK hx hrows j hj, sum_zipWith_smul]
+    rfl
+
+/-- zero contributions give the zero isotherm (the optimiser's initial guess) -/
+theorem kernelLoading_zero (m : ℕ) (K : List (List α))
+    (hK : K ≠ []) (hrows : ∀ row ∈ K, row.length = m) :
+    kernelLoading K (List.replicate K.length 0) = List.replicate m 0 := by
+  have h0 : K.length = (List.replicate K.length (0 : α)).length := by simp
+  apply ext_of_length (m := m) (kernelLoading_length m K _ hK h0 hrows) (by simp)
+  intro j hj
+  rw [kernelLoading_getElem m K _ hK h0 hrows j hj, List.getElem?_replicate, if_pos hj]
+  congr 1
+  apply List.sum_eq_zero
+  intro v hv
+  rw [List.mem_iff_getElem] at hv
+  obtain ⟨i, hi, rfl⟩ := hv
+  simp
+
+/-! ### 3. the objective -/
+
+/-- the objective is a sum of squares: it is never negative -/
+theorem sumSquares_nonneg (K : List (List α)) (l x : List α) : 0 ≤ sumSquares K l x := by
+  unfold sumSquares
+  apply List.sum_nonneg
+  intro r hr
+  simp only [List.mem_map] at hr
+  obtain ⟨a, _, rfl⟩ := hr
+  exact mul_self_nonneg a
+
+lemma sum_sq_eq_zero_iff : ∀ l : List α, (l.map (fun r => r * r)).sum = 0 ↔ ∀ r ∈ l, r = 0 := by
+  intro l
+  induction l with
+  | nil => simp
+  | cons a t ih =>
+    have ht : 0 ≤ (t.map (fun r => r * r)).sum := by
+      apply List.sum_nonneg
+      intro r hr
+      simp only [List.mem_map] at hr
+      obtain ⟨b, _, rfl⟩ := hr
+      exact mul_self_nonneg b
+    simp only [List.map_cons, List.sum_cons, List.mem_cons, forall_eq_or_imp]
+    rw [add_eq_zero_iff_of_nonneg (mul_self_nonneg a) ht, ih, mul_self_eq_zero]
+
+lemma zipWith_sub_eq_zero_iff : ∀ (a b : List α), a.length = b.length →
+    ((∀ r ∈ List.zipWith (· - ·) a b, r = 0) ↔ a = b) := by
+  intro a
+  induction a with
+  | nil => intro b h; cases b with
+    | nil => simp
+    | cons c t => simp at h
+  | cons c t ih =>
+    intro b h
+    cases b with
+    | nil => simp at h
+    | cons d u =>
+      have h' : t.length = u.length := by simpa using h
+      simp only [List.zipWith_cons_cons, List.mem_cons, forall_eq_or_imp, List.cons.injEq, ih u h',
+        sub_eq_zero]
+
+/-- the objective is zero iff the fitted isotherm IS the input isotherm -/
+theorem sumSquares_eq_zero_iff (m : ℕ) (K : List (List α)) (loading x : List α)
+    (hK : K ≠ []) (hlen : K.length = x.length) (hrows : ∀ row ∈ K, row.length = m)
+    (hload : loading.length = m) :
+    sumSquares K loading x = 0 ↔ kernelLoading K x = loading := by
+  unfold sumSquares
+  rw [sum_sq_eq_zero_iff, zipWith_sub_eq_zero_iff _ _ (by rw [kernelLoading_length m K x hK hlen hrows, hload])]
+
+/-! ### 4. isotherms that are exact non-negative combinations of kernel isotherms -/
+
+/-- (a) at the generating weights the objective vanishes (no shape hypothesis needed) -/
+theorem exact_combination_zero (K : List (List α)) (w : List α) :
+    sumSquares K (kernelLoading K w) w = 0 := by
+  unfold sumSquares
+  rw [sum_sq_eq_zero_iff]
+  intro r hr
+  rw [List.mem_iff_getElem] at hr
+  obtain ⟨i, hi, rfl⟩ := hr
+  simp
+
+/-- `x` minimises the objective over the feasible set (one non-negative contribution per pore width) -/
+def IsMinimiser (K : List (List α)) (loading x : List α) : Prop :=
+  feasible x ∧ K.length = x.length ∧
+    ∀ y, feasible y → K.length = y.length → sumSquares K loading x ≤ sumSquares K loading y
+
+/-- if the input isotherm is an exact non-negative combination `w` of kernel isotherms then (a) the objective vanishes at
+`w`, (b) `w` is a global minimiser over the feasible set, (c) EVERY minimiser over the feasible set reproduces the input
+isotherm exactly (even when the weights themselves are not unique). -/
+theorem exact_combination (m : ℕ) (K : List (List α)) (loading w : List α)
+    (hK : K ≠ []) (hw : K.length = w.length) (hrows : ∀ row ∈ K, row.length = m)
+    (hfeas : feasible w) (hexact : loading = kernelLoading K w) :
+    sumSquares K loading w = 0 ∧
+    IsMinimiser K loading w ∧
+    ∀ x, IsMinimiser K loading x → kernelLoading K x = loading := by
+  have h0 : sumSquares K loading w = 0 := by rw [hexact]; exact exact_combination_zero K w
+  have hload : loading.length = m := by rw [hexact]; exact kernelLoading_length m K w hK hw hrows
+  refine ⟨h0, ⟨hfeas, hw, fun y _ _ => ?_⟩, ?_⟩
+  · rw [h0]; exact sumSquares_nonneg K loading y
+  · rintro x ⟨_, hx, hmin⟩
+    have hle : sumSquares K loading x ≤ 0 := h0 ▸ hmin w hfeas hw
+    exact (sumSquares_eq_zero_iff m K loading x hK hx hrows hload).1
+      (le_antisymm hle (sumSquares_nonneg K loading x))
+
+/-- every squared pointwise residual is bounded by the objective: an objective value below the optimiser tolerance `tol`
+bounds every pointwise misfit of the fitted isotherm by `tol` (squared). -/
+theorem residual_sq_le_sumSquares (K : List (List α)) (loading x : List α) :
+    ∀ r ∈ List.zipWith (· - ·) (kernelLoading K x) loading, r * r ≤ sumSquares K loading x := by
+  intro r hr
+  unfold sumSquares
+  apply List.single_le_sum
+  · intro v hv
+    simp only [List.mem_map] at hv
+    obtain ⟨a, _, rfl⟩ := hv
+    exact mul_self_nonneg a
+  · exact List.mem_map.2 ⟨r, hr, rfl⟩
+
+/-! ### 5–6. contributions → distribution -/
+
+theorem ediff_length (widths : List α) : (ediff widths).length = widths.length := by
+  cases widths with
+  | nil => simp [ediff]
+  | cons w0 ws => simp [ediff]
+
+lemma diffs_pos : ∀ (ws : List α) (prev : α), (∀ b ∈ ws, prev < b) → ws.Pairwise (· < ·) →
+    ∀ d ∈ List.zipWith (· - ·) ws (prev :: ws), 0 < d := by
+  intro ws
+  induction ws with
+  | nil => intro prev _ _ d hd; simp at hd
+  | cons a t ih =>
+    intro prev hprev hinc d hd
+    rw [List.pairwise_cons] at hinc
+    simp only [List.zipWith_cons_cons, List.mem_cons] at hd
+    rcases hd with rfl | hd
+    · exact sub_pos.2 (hprev a (by simp))
+    · exact ih a hinc.1 hinc.2 d hd
+
+/-- the width increments `Δw` of strictly increasing positive widths are positive -/
+theorem ediff_pos (widths : List α) (hpos : ∀ w ∈ widths, 0 < w) (hinc : widths.Pairwise (· < ·)) :
+    ∀ d ∈ ediff widths, 0 < d := by
+  cases widths with
+  | nil => intro d hd; simp [ediff] at hd
+  | cons w0 ws =>
+    intro d hd
+    rw [List.pairwise_cons] at hinc
+    simp only [ediff, List.mem_cons] at hd
+    rcases hd with rfl | hd
+    · exact hpos d (by simp)
+    · exact diffs_pos ws w0 hinc.1 hinc.2 d hd
+
+lemma zipWith_div_nonneg : ∀ (x e : List α), (∀ v ∈ x, 0 ≤ v) → (∀ d ∈ e, 0 < d) →
+    ∀ q ∈ List.zipWith (· / ·) x e, 0 ≤ q := by
+  intro x
+  induction x with
+  | nil => intro e _ _ q hq; simp at hq
+  | cons a t ih =>
+    intro e hx he q hq
+    cases e with
+    | nil => simp at hq
+    | cons d u =>
+      simp only [List.zipWith_cons_cons, List.mem_cons] at hq
+      rcases hq with rfl | hq
+      · exact div_nonneg (hx a (by simp)) (he d (by simp)).le
+      · exact ih u (fun v hv => hx v (List.mem_cons_of_mem _ hv))
+          (fun v hv => he v (List.mem_cons_of_mem _ hv)) q hq
+
+/-- the reported (unsmoothed) distribution `x / Δw` is non-negative (holds for any length of `x`, in particular for
+`x.length = widths.length`) -/
+theorem rawDist_nonneg (x widths : List α) (hpos : ∀ w ∈ widths, 0 < w) (hinc : widths.Pairwise (· < ·))
+    (hfeas : feasible x) :
+    ∀ q ∈ rawDist x widths, 0 ≤ q :=
+  zipWith_div_nonneg x (ediff widths) hfeas (ediff_pos widths hpos hinc)
+
+theorem rawDist_length (x widths : List α) (hlen : x.length = widths.length) :
+    (rawDist x widths).length = x.length := by
+  simp [rawDist, ediff_length, hlen]
+
+lemma zipWith_div_mul_cancel : ∀ (x e : List α), x.length = e.length → (∀ d ∈ e, d ≠ 0) →
+    List.zipWith (· * ·) (List.zipWith (· / ·) x e) e = x := by
+  intro x
+  induction x with
+  | nil => intro e _ _; simp
+  | cons a t ih =>
+    intro e hlen he
+    cases e with
+    | nil => simp at hlen
+    | cons d u =>
+      have hd : d ≠ 0 := he d (by simp)
+      simp only [List.zipWith_cons_cons, List.cons.injEq]
+      exact ⟨div_mul_cancel₀ a hd,
+        ih u (by simpa using hlen) (fun v hv => he v (List.mem_cons_of_mem _ hv))⟩
+
+/-- the reported distribution times the width increments are the fitted contributions -/
+theorem rawDist_times_ediff (x widths : List α) (hpos : ∀ w ∈ widths, 0 < w) (hinc : widths.Pairwise (· < ·))
+    (hlen : x.length = widths.length) :
+    List.zipWith (· * ·) (rawDist x widths) (ediff widths) = x :=
+  zipWith_div_mul_cancel x (ediff widths) (by rw [ediff_length, hlen])
+    (fun d hd => (ediff_pos widths hpos hinc d hd).ne')
+
+/-- hence the kernel-weighted sum of `dist·Δw` is the reported fitted isotherm -/
+theorem kernelLoading_rawDist (K : List (List α)) (x widths : List α) (hpos : ∀ w ∈ widths, 0 < w)
+    (hinc : widths.Pairwise (· < ·)) (hlen : x.length = widths.length) :
+    kernelLoading K (List.zipWith (· * ·) (rawDist x widths) (ediff widths)) = kernelLoading K x := by
+  rw [rawDist_times_ediff x widths hpos hinc hlen]
+
+/-! ### 7–8. cumulative pore volume -/
+
+theorem cumsum_length : ∀ (l : List α) (acc : α), (cumsum l acc).length = l.length := by
+  intro l
+  induction l with
+  | nil => intro acc; simp [cumsum]
+  | cons a t ih => intro acc; simp [cumsum, ih]
+
+/-- successive differences of a running sum give back the summands -/
+theorem cumsum_succDiff : ∀ (l : List α) (acc : α),
+    List.zipWith (· - ·) (cumsum l acc) (acc :: cumsum l acc) = l := by
+  intro l
+  induction l with
+  | nil => intro acc; simp [cumsum]
+  | cons a t ih =>
+    intro acc
+    simp only [cumsum, List.zipWith_cons_cons, ih (acc + a), add_sub_cancel_left]
+
+/-- entry `i` of the running sum is the sum of the first `i+1` summands -/
+theorem cumsum_getElem : ∀ (l : List α) (acc : α) (i : ℕ), i < l.length →
+    (cumsum l acc)[i]? = some (acc + (l.take (i + 1)).sum) := by
+  intro l
+  induction l with
+  | nil => intro acc i hi; simp at hi
+  | cons a t ih =>
+    intro acc i hi
+    cases i with
+    | zero => simp [cumsum]
+    | succ k =>
+      have hk : k < t.length := by simpa using hi
+      rw [List.take_succ_cons, List.sum_cons]
+      simp only [cumsum, List.getElem?_cons_succ, ih (acc + a) k hk, add_assoc]
+
+theorem cumsum_getLast : ∀ (l : List α) (acc : α), l ≠ [] →
+    (cumsum l acc).getLast? = some (acc + l.sum) := by
+  intro l
+  induction l with
+  | nil => intro acc h; exact absurd rfl h
+  | cons a t ih =>
+    intro acc _
+    cases t with
+    | nil => simp [cumsum]
+    | cons b u =>
+      have := ih (acc + a) (by simp)
+      simp only [cumsum, List.getLast?_cons_cons, List.sum_cons] at this ⊢
+      rw [this, add_assoc]
+
+lemma cumsum_ge : ∀ (l : List α) (acc : α), (∀ v ∈ l, 0 ≤ v) → ∀ c ∈ cumsum l acc, acc ≤ c := by
+  intro l
+  induction l with
+  | nil => intro acc _ c hc; simp [cumsum] at hc
+  | cons a t ih =>
+    intro acc hl c hc
+    have ha : 0 ≤ a := hl a (by simp)
+    simp only [cumsum, List.mem_cons] at hc
+    rcases hc with rfl | hc
+    · exact le_add_of_nonneg_right ha
+    · exact le_trans (le_add_of_nonneg_right ha)
+        (ih (acc + a) (fun v hv => hl v (List.mem_cons_of_mem _ hv)) c hc)
+
+lemma cumsum_pairwise : ∀ (l : List α) (acc : α), (∀ v ∈ l, 0 ≤ v) → (cumsum l acc).Pairwise (· ≤ ·) := by
+  intro l
+  induction l with
+  | nil => intro acc _; simp [cumsum]
+  | cons a t ih =>
+    intro acc hl
+    have ht : ∀ v ∈ t, 0 ≤ v := fun v hv => hl v (List.mem_cons_of_mem _ hv)
+    simp only [cumsum, List.pairwise_cons]
+    exact ⟨cumsum_ge t (acc + a) ht, ih (acc + a) ht⟩
+
+lemma zipWith_mul_nonneg : ∀ (d e : List α), (∀ v ∈ d, 0 ≤ v) → (∀ v ∈ e, 0 < v) →
+    ∀ q ∈ List.zipWith (· * ·) d e, 0 ≤ q := by
+  intro d
+  induction d with
+  | nil => intro e _ _ q hq; simp at hq
+  | cons a t ih =>
+    intro e hd he q hq
+    cases e with
+    | nil => simp at hq
+    | cons b u =>
+      simp only [List.zipWith_cons_cons, List.mem_cons] at hq
+      rcases hq with rfl | hq
+      · exact mul_nonneg (hd a (by simp)) (he b (by simp)).le
+      · exact ih u (fun v hv => hd v (List.mem_cons_of_mem _ hv))
+          (fun v hv => he v (List.mem_cons_of_mem _ hv)) q hq
+
+/-- the cumulative volume of the unsmoothed distribution is the running sum of the fitted contributions -/
+theorem cumVol_rawDist (x widths : List α) (hpos : ∀ w ∈ widths, 0 < w) (hinc : widths.Pairwise (· < ·))
+    (hlen : x.length = widths.length) :
+    cumVol (rawDist x widths) widths = cumsum x 0 := by
+  unfold cumVol
+  rw [rawDist_times_ediff x widths hpos hinc hlen]
+
+/-- in particular its last entry is the total fitted volume `Σ x` -/
+theorem cumVol_rawDist_getLast (x widths : List α) (hpos : ∀ w ∈ widths, 0 < w)
+    (hinc : widths.Pairwise (· < ·)) (hlen : x.length = widths.length) (hx : x ≠ []) :
+    (cumVol (rawDist x widths) widths).getLast? = some x.sum := by
+  rw [cumVol_rawDist x widths hpos hinc hlen, cumsum_getLast x 0 hx, zero_add]
+
+theorem cumVol_length (dist widths : List α) (hlen : dist.length = widths.length) :
+    (cumVol dist widths).length = widths.length := by
+  simp [cumVol, cumsum_length, ediff_length, hlen]
+
+/-- the cumulative pore volume is non-decreasing -/
+theorem cumVol_monotone (dist widths : List α) (hdist : ∀ v ∈ dist, 0 ≤ v)
+    (hpos : ∀ w ∈ widths, 0 < w) (hinc : widths.Pairwise (· < ·)) :
+    (cumVol dist widths).Pairwise (· ≤ ·) :=
+  cumsum_pairwise _ 0 (zipWith_mul_nonneg dist (ediff widths) hdist (ediff_pos widths hpos hinc))
+
+/-- and non-negative -/
+theorem cumVol_nonneg (dist widths : List α) (hdist : ∀ v ∈ dist, 0 ≤ v)
+    (hpos : ∀ w ∈ widths, 0 < w) (hinc : widths.Pairwise (· < ·)) :
+    ∀ c ∈ cumVol dist widths, 0 ≤ c :=
+  cumsum_ge _ 0 (zipWith_mul_nonneg dist (ediff widths) hdist (ediff_pos widths hpos hinc))
+
+/-- successive differences of the cumulative volume are `dist_i * Δw_i`: it is the running integral of the
+reported distribution -/
+theorem cumVol_succDiff (dist widths : List α) :
+    List.zipWith (· - ·) (cumVol dist widths) (0 :: cumVol dist widths)
+      = List.zipWith (· * ·) dist (ediff widths) :=
+  cumsum_succDiff _ 0
+
+/-- entry `i` of the cumulative volume is `Σ_{k ≤ i} dist_k * Δw_k` -/
+theorem cumVol_getElem (dist widths : List α) (hlen : dist.length = widths.length) (i : ℕ)
+    (hi : i < widths.length) :
+    (cumVol dist widths)[i]? = some (((List.zipWith (· * ·) dist (ediff widths)).take (i + 1)).sum) := by
+  unfold cumVol
+  rw [cumsum_getElem _ 0 i (by simp [ediff_length, hlen, hi]), zero_add]
+
+/-! ### 9. smoothing: a B-spline sample is a convex combination of its control points -/
+
+/-- non-negative weights and non-negative control values give a non-negative sample -/
+theorem convexComb_nonneg (weights values : List α) (hw : ∀ w ∈ weights, 0 ≤ w) (hv : ∀ v ∈ values, 0 ≤ v) :
+    0 ≤ convexComb weights values := by
+  unfold convexComb
+  apply List.sum_nonneg
+  revert values
+  induction weights with
+  | nil => intro values _ q hq; simp at hq
+  | cons a t ih =>
+    intro values hv q hq
+    cases values with
+    | nil => simp at hq
+    | cons b u =>
+      simp only [List.zipWith_cons_cons, List.mem_cons] at hq
+      rcases hq with rfl | hq
+      · exact mul_nonneg (hw a (by simp)) (hv b (by simp))
+      · exact ih (fun v h => hw v (List.mem_cons_of_mem _ h)) u
+          (fun v h => hv v (List.mem_cons_of_mem _ h)) q hq
+
+lemma convexComb_lower : ∀ (weights values : List α) (lo : α), weights.length = values.length →
+    (∀ w ∈ weights, 0 ≤ w) → (∀ v ∈ values, lo ≤ v) → lo * weights.sum ≤ convexComb weights values := by
+  intro weights
+  induction weights with
+  | nil => intro values lo _ _ _; simp [convexComb]
+  | cons a t ih =>
+    intro values lo hlen hw hv
+    cases values with
+    | nil => simp at hlen
+    | cons b u =>
+      have h1 := ih u lo (by simpa using hlen) (fun v h => hw v (List.mem_cons_of_mem _ h))
+        (fun v h => hv v (List.mem_cons_of_mem _ h))
+      have h2 : lo * a ≤ a * b := by
+        rw [mul_comm lo a]
+        exact mul_le_mul_of_nonneg_left (hv b (by simp)) (hw a (by simp))
+      unfold convexComb at h1 ⊢
+      simp only [List.zipWith_cons_cons, List.sum_cons, mul_add]
+      exact add_le_add h2 h1
+
+lemma convexComb_upper : ∀ (weights values : List α) (hi : α), weights.length = values.length →
+    (∀ w ∈ weights, 0 ≤ w) → (∀ v ∈ values, v ≤ hi) → convexComb weights values ≤ hi * weights.sum := by
+  intro weights
+  induction weights with
+  | nil => intro values hi _ _ _; simp [convexComb]
+  | cons a t ih =>
+    intro values hi hlen hw hv
+    cases values with
+    | nil => simp at hlen
+    | cons b u =>
+      have h1 := ih u hi (by simpa using hlen) (fun v h => hw v (List.mem_cons_of_mem _ h))
+        (fun v h => hv v (List.mem_cons_of_mem _ h))
+      have h2 : a * b ≤ hi * a := by
+        rw [mul_comm hi a]
+        exact mul_le_mul_of_nonneg_left (hv b (by simp)) (hw a (by simp))
+      unfold convexComb at h1 ⊢
+      simp only [List.zipWith_cons_cons, List.sum_cons, mul_add]
+      exact add_le_add h2 h1
+
+/-- a convex combination (weights ≥ 0 summing to 1, one weight per control value) never leaves the range of its
+control values -/
+theorem convexComb_bounds (weights values : List α) (lo hi : α) (hlen : weights.length = values.length)
+    (hw : ∀ w ∈ weights, 0 ≤ w) (hsum : weights.sum = 1)
+    (hlo : ∀ v ∈ values, lo ≤ v) (hhi : ∀ v ∈ values, v ≤ hi) :
+    lo ≤ convexComb weights values ∧ convexComb weights values ≤ hi := by
+  have h1 := convexComb_lower weights values lo hlen hw hlo
+  have h2 := convexComb_upper weights values hi hlen hw hhi
+  rw [hsum, mul_one] at h1 h2
+  exact ⟨h1, h2⟩
+
+/-- smoothing keeps the distribution non-negative: every smoothed sample of a non-negative unsmoothed distribution
+`rawDist x widths` is non-negative -/
+theorem smoothed_rawDist_nonneg (x widths weights : List α) (hpos : ∀ w ∈ widths, 0 < w)
+    (hinc : widths.Pairwise (· < ·)) (hfeas : feasible x) (hw : ∀ w ∈ weights, 0 ≤ w) :
+    0 ≤ convexComb weights (rawDist x widths) :=
+  convexComb_nonneg weights _ hw (rawDist_nonneg x widths hpos hinc hfeas)
+
+/-! ### 10. non-vacuity at ℚ -/
+
+example : kernelLoading [[1, 2, 3], [0, 1, 4]] [(2 : ℚ), 1 / 2] = [2, 9 / 2, 8] := by
+  norm_num [kernelLoading]
+
+example : sumSquares [[1, 2, 3], [0, 1, 4]] [2, 9 / 2, 8] [(2 : ℚ), 1 / 2] = 0 := by
+  norm_num [sumSquares, kernelLoading]
+
+/-- an exact combination with non-unique weights: rows 1 and 2 are equal, `[1, 1]` and `[2, 0]` both fit exactly -/
+example : sumSquares [[1, 2], [1, 2]] [2, 4] [(1 : ℚ), 1] = 0 ∧ sumSquares [[1, 2], [1, 2]] [2, 4] [(2 : ℚ), 0] = 0 := by
+  norm_num [sumSquares, kernelLoading]
+
+example : sumSquares [[1, 2, 3], [0, 1, 4]] [2, 4, 8] [(2 : ℚ), 1 / 2] = 1 / 4 := by
+  norm_num [sumSquares, kernelLoading]
+
+example : ediff [(1 / 2 : ℚ), 1, 2] = [1 / 2, 1 / 2, 1] := by
+  norm_num [ediff]
+
+example : rawDist [(1 : ℚ), 0, 3] [1 / 2, 1, 2] = [2, 0, 3] := by
+  norm_num [rawDist, ediff]
+
+example : cumVol [(2 : ℚ), 0, 3] [1 / 2, 1, 2] = [1, 1, 4] := by
+  norm_num [cumVol, cumsum, ediff]
+
+example : cumVol (rawDist [(1 : ℚ), 0, 3] [1 / 2, 1, 2]) [1 / 2, 1, 2] = cumsum [1, 0, 3] 0 :=
+  cumVol_rawDist _ _ (by norm_num) (by norm_num) rfl
+
+example : convexComb [(1 / 4 : ℚ), 1 / 2, 1 / 4] [2, 0, 3] = 5 / 4 := by
+  norm_num [convexComb]
+
+/-- the hypotheses of `exact_combination` are satisfiable -/
+example : ∃ (K : List (List ℚ)) (loading w : List ℚ), K ≠ [] ∧ K.length = w.length ∧
+    (∀ row ∈ K, row.length = 3) ∧ feasible w ∧ loading = kernelLoading K w :=
+  ⟨[[1, 2, 3], [0, 1, 4]], [2, 9 / 2, 8], [2, 1 / 2], by simp, rfl, by simp, by
+    intro v hv; simp at hv; rcases hv with rfl | rfl <;> norm_num, by norm_num [kernelLoading]⟩
+
+/-- without the guard `0 < Δw` the identity `rawDist · Δw = x` fails (totalised division): repeated width -/
+example : List.zipWith (· * ·) (rawDist [(1 : ℚ), 1] [1, 1]) (ediff [1, 1]) ≠ [1, 1] := by
+  norm_num [rawDist, ediff]
 
 end PgVerif.Props.C18
